@@ -351,6 +351,10 @@ def c10(c):
     # bounded model backend that offers the optional grant/deny hooks (can_grant_deny_access), accepting or declining by policy
     units.append(dict(name="c10_grantcap", srcs=[D + "c10_grantcap.cpp"], build="asan0", defs=EXC))
     runs.append(dict(unit="c10_grantcap", label="c10_grantcap[ilp32g]"))
+    # element semantics of the grant/deny helpers under ABIs whose short is not 16 bits
+    for cfg in ("wide", "narrow"):
+        units.append(dict(name="c10_elemabi_" + cfg, srcs=[D + "c10_elemabi.cpp"], build="asan0", defs=EXC + ["CFG=vsbx_" + cfg]))
+        runs.append(dict(unit="c10_elemabi_" + cfg, label="c10_elemabi[%s]" % cfg))
     if c.thorough:
         units.append(dict(name="c10_ilp32f", srcs=[D + "c10_bulk.cpp"], build="asan0",
                           defs=EXC + ["CFG=vsbx_ilp32f", "RLBOX_USE_STATIC_CALLS()=rlbox_noop_sandbox_lookup_symbol"]))
